@@ -46,19 +46,28 @@ def run(ctx):
         nparts = max(1, min(16, (n * n) // 400))
         for part in range(nparts):
             runs.append((b, [ff, part, nparts]))
+    if thorough:
+        # every float mantissa for every ordered pair (container form), every float bit pattern for the affine pairs
+        for t, (b, err) in zip(ts, bins):
+            n = count.get(t['name'], 0)
+            nparts = max(1, min(64, (n * n) // 40)) if t['name'] != 'Temperature' else 16
+            for part in range(nparts):
+                runs.append((b, [ff, part, nparts, 'floatsweep']))
     # largest first
     runs.sort(key=lambda r: -r[1][2])
     ctx.pmap(lambda r: ctx.run(r[0], r[1]), runs)
     npairs = sum(c * c for c in count.values())
     h.stats['units'] = len(bound)
     h.stats['ordered_pairs_total'] = npairs
+    h.stats['ordered_pairs_total'] = npairs
     if h.stat('ordered_pairs_runtime') != 3 * npairs:
         raise vf.Undecided('expected %d run-time (pair, numeric type) sweeps, harness reports %d' % (3 * npairs, h.stat('ordered_pairs_runtime')))
     rule = ('all ordered pairs of units within each unit type (enumerators by reflection) x {float, double, long double} x '
             'value alphabet V_lin/V_aff (DESIGN Appendix B: +-0, boundary and stratified mantissas x extreme/middle binades, both '
-            'signs, cancellation neighbourhoods for temperatures), through PhQ::Convert; ConvertStatically for %s. Reference: '
+            'signs, cancellation neighbourhoods for temperatures), through PhQ::Convert; ConvertStatically for %s%s. Reference: '
             '(a_from*x + b_from - b_to)/a_to in __float128 with a, b from the unit symbols only. tolerance 8 ulp per hop. '
             'distinct_nontrivial = conversions between two different units') % (
-                'all ordered pairs' if thorough else 'every (unit, standard) and (standard, unit) pair')
+                'all ordered pairs' if thorough else 'every (unit, standard) and (standard, unit) pair',
+                '; additionally ALL 2^23 float mantissas x 2 signs x 3 binades through ConvertInPlace(std::vector<float>) for every ordered linear pair and all 2^32 float bit patterns for the affine temperature pairs' if thorough else '')
     return vf.finish(ctx, 'exploration', rule, h.stat('conversions'), h.stat('nontrivial_conversions'), True,
                      coverage={'configurations': npairs * 3})
